@@ -121,52 +121,7 @@ def run(repo, rep, tier):
               'Banner.parse: %s' % (badp['sanitise'][0] if badp['sanitise'] else ''), stmt='banner sanitise / flag')
     # the two sanitising helpers of Utils, interpreted (helpers and the filter -- a lambda or a named predicate -- in place) on strings that exercise the code-point
     # classes < 32, 32..126, 127, > 127: is_print_ascii <=> every character in 32..126; to_print_ascii replaces exactly the other characters by "?"
-    from sa.listinterp import Interp as _I16
-    from sa.abseval import Unknown as _U16
-
-    def _ures(call):
-        f = call.func
-        if isinstance(f, ast.Attribute) and isinstance(f.value, ast.Name) and f.value.id in ('cls', 'Utils', 'self') and repo.has_func('utils', 'Utils.' + f.attr):
-            return repo.func('utils', 'Utils.' + f.attr)
-        if isinstance(f, ast.Name) and repo.has_func('utils', f.id):
-            return repo.func('utils', f.id)           # a module-level helper of utils (a named predicate instead of a lambda)
-        return None
-    ipa = repo.func('utils', 'Utils.is_print_ascii')
-    tpa = repo.func('utils', 'Utils.to_print_ascii')
-    rep.saw(ipa), rep.saw(tpa)
-    uconsts = {}
-    for st_ in repo.cls('utils', 'Utils').body:
-        if isinstance(st_, ast.Assign) and len(st_.targets) == 1 and isinstance(st_.targets[0], ast.Name):
-            try:
-                v_ = _I16().value(st_.value, {})
-            except _U16:
-                continue
-            for pre_ in ('cls.', 'Utils.', 'self.'):
-                uconsts[pre_ + st_.targets[0].id] = v_
-    samples = ['SSH-2.0-x', '', ' ~', 'a\tb', 'a\x1fb', 'a\x7fb', 'caf\xe9', '\x00', 'tab\there \u20ac', '}~\x7f\x80']
-    bads = []
-    for smp in samples:
-        for f, oracle in ((ipa, _BP.printable), (tpa, _BP.sanitised)):
-            env = dict(uconsts)
-            env.update({a.arg: None for a in f.args.args})
-            nd = len(f.args.defaults)
-            for a_, d_ in zip(f.args.args[len(f.args.args) - nd:], f.args.defaults):
-                env[a_.arg] = ast.literal_eval(d_)
-            env[f.args.args[1].arg] = smp
-            try:
-                fin = _I16(resolver=_ures, try_normal_path=True).run(f.body, env)
-            except _U16 as ex:
-                raise AnalysisError('Utils.%s cannot be interpreted: %s' % (f.name, ex))
-            rep.evals()
-            if len(fin) != 1 or fin[0].get('<forks>') or fin[0].get('<outcome>') != 'return':
-                raise AnalysisError('Utils.%s does not evaluate on a single path for %r' % (f.name, smp))
-            got = fin[0].get('<return>')
-            if not isinstance(got, (str, bool)):
-                raise AnalysisError('Utils.%s(%r): result not computable by the interpreter (%r)' % (f.name, smp, got))
-            if got != oracle(smp):
-                bads.append('Utils.%s(%r) is %r, documented: %r' % (f.name, smp, got, oracle(smp)))
-    rep.check('sanitise', 'is_print_ascii <=> all characters in 32..126; to_print_ascii replaces every other character by "?" (%d strings)' % len(samples), not bads, tpa,
-              'printable-ASCII helpers changed -- %s' % (bads[0] if bads else ''), stmt='printable ascii helpers')
+    _BP.check_print_helpers(repo, rep, 'sanitise')
     outf = repo.func('ssh_audit', 'output')
     w = [n for n in walk_no_nested(outf) if isinstance(n, ast.Call) and unparse(n.func) == 'out.warn' and 'non-printable ASCII' in unparse(n)]
     ok = len(w) == 1
